@@ -152,3 +152,19 @@ PROPS["C10"] = dict(
     assumptions=[],
 )
 DESCR += [(r"c10_._replay", "kind()+write() twice on the same body object: identical octets and kind on both hops")]
+
+PROPS["C08"] = dict(
+    filters={"quick": ["c08_q", "c08_qtwin"], "thorough": ["c08_"]},
+    timeout_s={"quick": 600, "thorough": 2400},
+    mem_gb=26, jobs={"quick": 8, "thorough": 8},
+    kernel=["BaseStream::connect up to and including the dial (hook H2): peer selection proxy vs origin, effective port, scheme", "url::Url::{host,port_or_known_default,scheme} on factory-built Urls"],
+    level_note="PARTIAL: only the peer-selection clause of C08 is decided. The Host-field and request-target clauses are NOT decided: set_host (format! + HeaderMap::insert) and write_request (BufWriter + write!) did not finish symbolic execution in 600 s even on concrete inputs (DESIGN.md section 9).",
+    bounds="hosts: domain of 1..3 symbolic bytes over {a,b,.,-}, one IPv4 and two IPv6 literals; ports: none / 81 / 8080 / 8443 (enumerated: the decimal text length must be concrete); "
+           "path/query/fragment/userinfo of 0..2 symbolic bytes over small alphabets; direct, http-via-proxy, https-via-proxy",
+    outside="Host field and request target (not encodable within reach, see level_note); URLs outside the factory grammar (IDNA, percent-encoding, opaque paths); https-via-proxy dial continues into the CONNECT exchange (C12)",
+    stubs=["core::slice::memchr::memchr -> naive", "core::str::from_utf8 -> byte-wise validator", "io::Error::is_interrupted -> false", "Url built by the validated field mirror instead of Url::parse"],
+    assumptions=["Url factory validated natively against Url::parse (tools/urlfactory)"],
+)
+DESCR += [(r"c08_._host", "set_host on a factory URL (symbolic host bytes): exactly one Host field equal to host[:port]"),
+          (r"c08_._target", "write_request request line for a factory URL with symbolic path/query/fragment/userinfo bytes: origin-form vs absolute-form, no fragment, no userinfo"),
+          (r"c08_._dial", "BaseStream::connect: the peer handed to the dial hook is the proxy if one applies, else the URL's host and effective port")]
